@@ -895,6 +895,9 @@ func concurrentStores(w *world, out *vh.Result, ns bool) {
 		}()
 	}
 	bc := w.node.BC
+	// a pause after every durable mutation: an operation that needs more than one becomes observable
+	w.fk.OnWrite = func(int, string) { time.Sleep(time.Millisecond) }
+	defer func() { w.fk.OnWrite = nil }()
 	for g := 0; g < 3; g++ {
 		guard(fmt.Sprintf("reader-%d", g), func() {
 			for {
